@@ -28,7 +28,7 @@ CLAIMS = {
     'C14': ('proof',
             'Binary entry points are discovered from the AST (21 required today) and each is abstractly interpreted for all 20 ordered pairs of '
             'different dimensions with symbolic data: an exception must be raised with no operand write and no access outside the extent of any '
-            'abstract memory block; the 10 dimension-taking constructors/factories are interpreted over the window of unsupported arguments named by '
+            'abstract memory block; the 10 dimension-taking constructors/factories (make_aligned with both fill flags) are interpreted over the window of unsupported arguments named by '
             'the property (dimension 1,7,8; non-square shapes; list lengths up to 64; indices up to d*d+2).',
             'static analysis: guard-dominance decided by abstract interpretation over the finite set of dimension pairs, with extent-checked abstract memory'),
     'C04': ('other',
@@ -38,11 +38,11 @@ CLAIMS = {
             'static analysis: abstract interpretation of the solver with uninterpreted user hooks and a summarised ODE driver; comparison with the documented right-hand side'),
     'C05': ('other',
             'The seven query functions are interpreted on a solver with symbolic state, symbolic ordered nodes and uninterpreted H0, with the query placed in every order relation to the nodes; the value is compared with '
-            'Tr(rho Evolve(op,H0(.),t-t_ini)) built from the C02/C03 tables (H0 argument, weights, bracketing nodes), and both-sided range rejection is required. Numerical value of the trace is declined.',
+            'Tr(rho Evolve(op,H0(.),t-t_ini)) built from the C02/C03 tables (H0 argument, weights, bracketing nodes), and both-sided range rejection is required; a query through a scratch buffer (explicit or per-thread) that another solver with a different H0 used before, at the same x or another, must give what a fresh buffer gives; the clock, move and averaging-table rules of C10/C11 are repeated. Numerical value of the trace is declined.',
             'static analysis: abstract interpretation with an explicit order oracle for the bracketing search; one-sided-comparison (range guard) rule'),
     'C10': ('other',
             'Structural necessary conditions: both Evolve branches advance the clock by dt; the no-numerics branch touches neither state nor driver; post-step re-aliasing uses the ini layout; a fresh driver per call; ini resets clock/views/cache keys; '
-            'each setter recomputes the OR of all five switches (all 64 cases); move operations transfer every field of the record declaration, re-point sys.params and disable the source. Equality of split vs single evolution within tolerance is numerical and declined.',
+            'each setter recomputes the OR of all five switches (all 64 cases); move operations transfer every field of the record declaration, re-point sys.params and disable the source (also from a source whose numerics are suspended); the right-hand side with terms switched off contributes nothing whatever the stepper buffers hold (C04 D.rhs on one configuration); on a failing driver the clock is the time reached. Equality of split vs single evolution within tolerance is numerical and declined.',
             'static analysis: abstract interpretation of the solver state handling; field-completeness rule over the record declaration'),
     'C17': ('other',
             'Grid formulas compared with the affine form for nx=2..8 (both scales, all accepted scale names); vector overload guards; Get_i interpreted for nx=2..12 (thorough: ..33) with the query in every order relation to symbolic strictly increasing nodes: '
@@ -50,7 +50,7 @@ CLAIMS = {
             'static analysis: abstract interpretation with symbolic ordered grids; comparison-shape rule for the bisection'),
     'C18': ('other',
             'Structural necessary conditions (schedules are not explored; bit-identity declined): every object with static or thread storage is top-level const or thread_local (159 objects, 32 thread-local); no thread-local scratch escapes; '
-            'the const query methods of the solver perform no write reachable from this; calls with process-global side effects only inside once-only static const initialisers; every thread-local owner of heap blocks has a releasing destructor (1 known finding: the block cache).',
+            'the const query methods of the solver perform no write reachable from this; calls with process-global side effects only inside once-only static const initialisers; every thread-local owner of heap blocks has a destructor that releases every member its class allocates (1 known finding: the block cache).',
             'static analysis: storage-class and effect audit over the type-resolved AST (who-may-write / who-may-call rules)'),
     'C19': ('other',
             'Structural necessary conditions; linearizability under all interleavings is declined. On both compilations of Cache.h (the atomic one via a driver TU): record typestate (no access after publish), conservation of records after every operation, '
@@ -81,22 +81,22 @@ CLAIMS = {
             'static analysis: abstract interpretation with symbolic component data over enumerated storage/alias states; single-assignment and trait/kernel agreement rules'),
     'C12': ('other',
             'Structural necessary conditions on GetEigenSystem: on every path (d=2..6, both orderings) the outputs are those of gsl_eigen_hermv applied to exactly the C01 matrix of the vector, '
-            'sorted ascending iff requested, nothing else writes them, and the body contains no division/root/argument function of input-dependent quantities. The solver\'s accuracy is trusted, so this is not a proof of the numerical statement.',
+            'sorted ascending iff requested (a path that orders a diagonal matrix itself is judged on concrete members of the class), nothing else writes them, the matrix handed to the solver is the generic linear conversion for every input (an entry that takes another form on part of the input space is reported), and the body contains no division/root/argument function of input-dependent quantities. The solver\'s accuracy is trusted, so this is not a proof of the numerical statement.',
             'static analysis: path enumeration by abstract interpretation with callee summaries; syntactic rule for writes/divisions outside the trusted solver'),
     'C15': ('other',
             'Token accounting on every exit (incl. library exceptions) of every explored lifecycle path; GSL allocate/free pairing on every path to every exit of every function that allocates, with a may-throw call graph; '
-            'RAII holder rule; every kernel family and the abstract solver runs of C04/C05/C10/C17 interpreted on exact-size abstract blocks (extent check); alignment hints only under the asserted flag. UB inside GSL and arithmetic overflow are declined, hence level other.',
+            'RAII holder rule; every kernel family and the abstract solver runs of C04/C05/C10/C17 interpreted on exact-size abstract blocks (extent check); alignment hints only under the asserted flag; a block that is not optimally aligned must not reach a vector through the block cache (the aligned allocator is simulated on every such insertion). UB inside GSL and arithmetic overflow are declined, hence level other.',
             'static analysis: ownership typestate with token accounting; intraprocedural resource-pairing over the AST with a may-throw call graph; extent-checked abstract interpretation of kernels'),
     'C16': ('proof',
             'For every explored (operation, entry state, choice) path with N allocations the path is re-interpreted with std::bad_alloc raised at the k-th allocation point, k=1..N (exhaustive over allocation sites x paths); '
-            'on the exceptional edge the invariant, the token accounting and the values of bystander vectors are checked.',
+            'on the exceptional edge the invariant, the token accounting and the values of bystander vectors are checked, and the exception must not meet a non-throwing exception specification on its way out. Operations explored: constructors, assignments, factories, every fused expression statement, and the members of the expression base class (conversion, negation, combination with scalars and vectors) for all nine operations.',
             'static analysis: fault-edge enumeration over allocation sites in the ownership typestate engine'),
     'C11': ('proof',
             'The four filter families are abstractly interpreted for d=2..6 with data-dependent branches kept as guards; the guarded table of every level pair is compared with the documented piecewise definition (threshold, strictness, ramp, cutoff), the phase/frequency of pair k with that of the consumer kernel, the interval form with the exact average; every division by an input-dependent quantity must be dominated by guards excluding zero (35 listed known findings). A guard structure that is not recognised is reported only with a concrete counterexample point of the abstract result; otherwise the check ends undecided (exit 2).',
             'static analysis: abstract interpretation with guarded (ITE) values; guarded-table comparison; guard-dominance rule for divisions'),
     'C13': ('proof',
             'Each factory body is abstractly interpreted for every d in 2..6 and every admissible index (finite domain, exhaustive) and '
-            'the resulting vector, mapped through the extracted basis, is compared with the documented 0/1 diagonal matrix.',
+            'the resulting vector, mapped through the extracted basis, is compared with the documented 0/1 diagonal matrix - on a first call, and again after calls with another dimension and with the same arguments whose result the caller overwrote, with function-local statics shared between the calls.',
             'static analysis: abstract interpretation of the factory bodies over the finite parameter domain; index-set comparison'),
 }
 
